@@ -201,6 +201,7 @@ fn run_step_with(boc: &Arc<BocData>, st: &Step, max_write: usize, hash_seed: u64
         net_faults: vec![],
         server_today: if ahead != 0 { Some(pd(&st.today)) } else { None },
         clock_tz: None,
+        now_shift: 0,
         fs_faults,
         knobs: Knobs { max_write, max_read: usize::MAX, eintr_every: 0 },
         hash_seed,
@@ -701,6 +702,7 @@ impl Engine for C14 {
                     net_faults: vec![],
                     server_today: None,
                     clock_tz: None,
+                    now_shift: 0,
                     fs_faults: FsFaultSpec::default(),
                     knobs: Knobs::default(),
                     hash_seed: sc.hash_seed ^ 7,
